@@ -9,15 +9,21 @@ EXTENDS DepGraph, Json
 
 CONSTANTS MaxDeps, EmitOn, EmitMin
 
-VARIABLES g, hist
-vars == <<g, hist>>
+VARIABLES g, hist, gobs
+vars == <<g, hist, gobs>>
 View == g
+\* gobs is the graph as it was when the component last answered queries (every completed, i.e.
+\* non-pending, point is observed by the harness).  The reference has no caches, so gobs adds no
+\* behaviour; keeping it in the fingerprint makes TLC keep one path per (last answered graph, deferred
+\* changes since) pair, which is what a stale cached answer in the implementation depends on.
+View2 == <<g, gobs>>
 
 DepLists == UNION {[1..k -> Nodes] : k \in 0..MaxDeps}
 
-Init == g = EmptyGraph /\ hist = <<>>
+Init == g = EmptyGraph /\ hist = <<>> /\ gobs = EmptyGraph
 
-Do(e) == g' = GApply(g, e) /\ hist' = Append(hist, e)
+Do(e) == /\ g' = GApply(g, e) /\ hist' = Append(hist, e)
+         /\ gobs' = IF GApply(g, e).pending THEN gobs ELSE GApply(g, e)
 
 AddImm   == \E n \in Nodes, ds \in DepLists :
                /\ Acyclic(g)      \* immediate adds are only specified on acyclic graphs
